@@ -4,6 +4,7 @@ import (
 	"context"
 	"encoding/json"
 	"fmt"
+	"github.com/ipld/go-ipld-prime/fluent/qp"
 	"os"
 	"path/filepath"
 	"sort"
@@ -97,9 +98,25 @@ func tokOfCid(c cid.Cid) int {
 }
 
 // IPLD nodes used as selector / voucher payloads: Int(k) <-> token k+1 ; nil/null <-> 0
+// vouchers, results and selectors are tokens in the model; the value behind a token cycles through
+// three shapes so that every path that stores or ships one sees floats (incl. 0.0), maps and lists
 func nodeOf(tok int) datamodel.Node {
 	if tok == 0 {
 		return nil
+	}
+	switch tok % 3 {
+	case 0:
+		n, _ := qp.BuildMap(basicnode.Prototype.Any, 2, func(ma datamodel.MapAssembler) {
+			qp.MapEntry(ma, "tok", qp.Int(int64(tok-1)))
+			qp.MapEntry(ma, "price", qp.Float(0.0))
+		})
+		return n
+	case 2:
+		n, _ := qp.BuildList(basicnode.Prototype.Any, 2, func(la datamodel.ListAssembler) {
+			qp.ListEntry(la, qp.Int(int64(tok-1)))
+			qp.ListEntry(la, qp.Float(1.5))
+		})
+		return n
 	}
 	return basicnode.NewInt(int64(tok - 1))
 }
@@ -107,9 +124,20 @@ func tokOfNode(n datamodel.Node) int {
 	if n == nil || n.IsNull() {
 		return 0
 	}
-	if n.Kind() == datamodel.Kind_Int {
+	switch n.Kind() {
+	case datamodel.Kind_Int:
 		v, _ := n.AsInt()
 		return int(v) + 1
+	case datamodel.Kind_Map:
+		if t, err := n.LookupByString("tok"); err == nil {
+			v, _ := t.AsInt()
+			return int(v) + 1
+		}
+	case datamodel.Kind_List:
+		if t, err := n.LookupByIndex(0); err == nil {
+			v, _ := t.AsInt()
+			return int(v) + 1
+		}
 	}
 	return 999
 }
